@@ -105,7 +105,29 @@ func verifScript(k, maxLen int) []verifDelivery {
 		out[i].data = vnd.Bytes(vnd.Choose(maxLen + 1))
 		out[i].kind = vnd.Choose(3)
 	}
+	verifLastScript = append([]verifDelivery(nil), out...)
 	return out
+}
+
+// verifLastScript: the script most recently drawn, so that oracles can speak about the
+// COMPLETE content of the source (not only the part a consumer happened to read).
+var verifLastScript []verifDelivery
+
+func init() { vnd.RegisterReset(func() { verifLastScript = nil }) }
+
+// verifFullContent: everything the scripted source holds up to its end of stream, and
+// whether it fails before reaching it.
+func verifFullContent(script []verifDelivery) (content []byte, fails bool) {
+	for _, d := range script {
+		if d.kind == verifDeliverErr {
+			return content, true
+		}
+		content = append(content, d.data...)
+		if d.kind == verifDeliverEOF {
+			break
+		}
+	}
+	return content, false
 }
 
 type verifReader struct {
